@@ -31,6 +31,14 @@ META = dict(
 KINDS11 = ['none', 'do', 'noise', 'shift', 'do+noise', 'do+shift', 'noise+shift', 'do+noise+shift']
 
 
+def _visibly(a, b):
+    """the two sides differ by at least 1/4 (a counterexample that survives floating-point replay)"""
+    d = a - b
+    if not isinstance(d, SV):
+        return None
+    return G.Z(G.Or(G.T(d >= Fraction(1, 4)), G.T(d <= Fraction(-1, 4))))
+
+
 def h_law(dtype, how='dict'):
     def fn(ctx):
         p = ctx.params['p']
@@ -66,7 +74,7 @@ def h_law(dtype, how='dict'):
             if ok:
                 mean = [dist.mean[i] for i in range(p)]
                 cov = [[dist.covariance[i, j] for j in range(p)] for i in range(p)]
-                scm.structural_clauses(Wp, mu_, D_, mean, cov, lambda n, a, b: cl.append((n, a == b)))
+                scm.structural_clauses(Wp, mu_, D_, mean, cov, lambda n, a, b: cl.append((n, a == b, _visibly(a, b))))
                 sym = ['ok', dist.mean.tolist(), dist.covariance.tolist()]
             # the model itself is unchanged
             cl.append(('model attributes unchanged by sampling', G.And([G.T(model.W[i, j] == rows[i][j]) for i in range(p) for j in range(p)] +
